@@ -125,6 +125,23 @@ type c09PC struct {
 	done    bool
 	// the last sample (guarded by M.mu)
 	lastHand, lastRetry, lastPending, lastPendingB, lastDepth int
+	hsFailed                                                  bool // Handshake returned an error (guarded by M.mu)
+}
+
+// onHandshake is the session's OnHandshake callback.  The session closes the endpoint's socket
+// right after a failed handshake, which the virtual network already counts as "finished" although
+// the goroutine is still unwinding: the failure is therefore noted here, before that.
+func (c *c09PC) onHandshake(err error) {
+	c.M.mu.Lock()
+	c.done = err == nil
+	c.hsFailed = err != nil
+	c.M.mu.Unlock()
+}
+
+func (c *c09PC) failed() bool {
+	c.M.mu.Lock()
+	defer c.M.mu.Unlock()
+	return c.hsFailed
 }
 
 func (c *c09PC) sample() {
